@@ -54,7 +54,7 @@ def check_case(case, opts):
         pre, _ = c10.render(dict(ops=case["pre"]), P)
         lines += ["pre " + l for l in pre]
         lines.append("copy")
-        for i, (who, op) in enumerate(case["post"]):
+        for i, (who, op) in enumerate([tuple(x) for x in case["post"]]):
             if i == case["drop_at"]:
                 lines.append("drop " + case["drop_first"])
             l, _ = c10.render(dict(ops=[op]), P)
@@ -63,9 +63,9 @@ def check_case(case, opts):
             lines.append("drop " + case["drop_first"])
         lines.append("drop " + ("c" if case["drop_first"] == "o" else "o"))
     elif case["kind"] == "cz":
-        lines += ["cz %d %d %d %d %d" % t for t in case["cz"]]
+        lines += ["cz %d %d %d %d %d" % tuple(t) for t in case["cz"]]
     else:
-        lines += ["xw %d %d %d %d %d" % t for t in case["xw"]]
+        lines += ["xw %d %d %d %d %d" % tuple(t) for t in case["xw"]]
     with Scratch("c19") as sc:
         of = os.path.join(sc, "ops.txt")
         with open(of, "w", encoding="latin-1") as fh:
